@@ -96,8 +96,14 @@ _orig_anm = NetlistMixin.augment_node_map
 
 
 def _anm(self, node_map=None):
+    # the recorded oracles the model of augment_node_map needs: the items of
+    # self.equipotential_nodes in dict order and Python's string order of the node names
+    ent = ['node_map_call', {str(k): str(v) for k, v in (node_map or {}).items()},
+           [[str(k), [str(n) for n in v]] for k, v in self.equipotential_nodes.items()],
+           sorted(str(n) for n in self.nodes.keys())]
+    LOG.append(ent)
     r = _orig_anm(self, node_map)
-    LOG.append(['node_map', {str(k): str(v) for k, v in r.items()}])
+    LOG.append(['node_map', [[str(k), str(v)] for k, v in r.items()]])
     return r
 
 
